@@ -92,10 +92,13 @@ EXTRA = {
  "C05": " Later additions: calls with as many arguments as parameters across the 255-argument limit.",
  "C07": " Later additions: block-ended expressions (als, zolang, functie) without parentheses as left/right operand of every operator and as callee in 16 statement and expression contexts.",
  "C09": " Later additions: functions defined in top-level blocks / branches / loop bodies nested to depth 3 with every subset of levels declaring the same name; slot-number ladders (many globals, nested block locals, each read back).",
- "C10": " Later additions: constant-pool ladders (ints, floats, strings; indices across 255 and 65 535; the same literals again after the pool has grown; at top level and inside a function).",
+ "C10": " Later additions: literal-pristine family (literals through 12 value-preserving contexts, modified in place, re-evaluated); constant-pool ladders (ints, floats, strings; indices across 255 and 65 535; the same literals again after the pool has grown; at top level and inside a function).",
  "C11": " Later additions: condition-driven loops around every body of <= 2 statements, literal-`ja` loops, depth-bounded templates, and jump-distance ladders up to the 64 KiB code limit (differential + static).",
  "C12": " Later additions: arity ladder (0..12 and around every power of two up to 255 arguments, x 0/1/3 locals, every parameter read back), empty bodies, locals in sibling blocks, frame-size and entry-offset ladders.",
- "C13": " Later additions: self-consistency where the model is silent (U8): after replacing a character by zero or several characters the printed text, lengte and per-character reads from both ends must describe the same string.",
+ "C03": " Later additions: allocation-count ladders (N objects created without a collection in between, N around every power of two, garbage and live, followed by a call / an error) under the shadow heap.",
+ "C04": " Later additions: allocation-count ladders as in C03 with the ledger audit, cut short around every power-of-two instruction count.",
+ "C06": " Later additions: strings of 3..33 characters differing at every pair of positions in opposite directions, at one position, by a wide character, or by being a prefix.",
+ "C13": " Later additions: length ladders (strings and arrays around every power of two up to 257, one wide character at every position, every index read from both ends, writes around it); literal-pristine family; self-consistency where the model is silent (U8): after replacing a character by zero or several characters the printed text, lengte and per-character reads from both ends must describe the same string.",
  "C17": " Later additions: deviation-bounded long sessions: four ordinary ten-line sessions, every crash point of every line with the rest of the session as continuation, and every insertion of one or two of 16 deviation lines at every position (62 000 sessions of up to 12 lines).",
  "C16": " Later additions: the batch has 40 programs (values equal under == but not identical, e.g. 0.0 / -0.0, 1 / 1.0); one 6 000-program history; a symbol-table scan for writable statics; violations carry the worker's evaluation log so that replay reproduces.",
 }
